@@ -1,61 +1,103 @@
 """C15 — emitted jump sequences transfer control to exactly the requested address.
 
-Tie T: the five emitter files are re-translated to Lean on every run and the theorems of Props/C15.lean are
-re-checked against them.  Tie X: the real Go emitters (arm64/386 sources re-hosted so they compile here) are run
-on the same pairs as the generated Lean functions; the bytes are compared, and interpreted on the Go side with the
-toolchain's reference decoders, on the Lean side with the hand-written mini ISA, and the two results compared.
+Tie T: the emitter files (and the stub slot size of make_method.go) are re-translated to Lean on every run and the
+theorems of Props/C15.lean are re-checked against them.  Tie X, two lanes:
+ * `emit`: the real Go emitters (arm64 source re-hosted so it compiles here, the 386 source built for GOARCH=386) are run
+   on the same pairs as the generated Lean functions; the bytes are compared, and interpreted on the Go side with the
+   toolchain's reference decoders, on the Lean side with the hand-written mini ISA, and the two results compared;
+ * `site`: the real *call sites* are driven — genJumpData, a real Patch+Apply, the jump back that a real Trampoline()
+   leaves in the placeholder (same origin through placeholder A, B, A again; other origins through the same placeholders),
+   MakeMethodCaller / MakeMethodCallerWithCtx — what they leave in memory is read back, interpreted with the same
+   reference interpreter, executed, and turned into `emit` lines (from = where the bytes sit, to = the destination
+   computed independently of goom) that the model driver answers from the proved emitters.
 The oracle below states the property itself on the implementation's output, independently of the model.
 """
 import os
+import subprocess
 
 from vlib import common as C
 
 META = {
     'property_id': 'C15',
-    'technique': 'Lean 4 theorems over all 64-bit from/to about emitters regenerated from the Go source (translator) + differential run against the real emitters',
+    'technique': 'Lean 4 theorems over all 64-bit from/to about emitters regenerated from the Go source (translator) + differential run against the real emitters and the real call sites',
     'level': 'proof',
-    'level_text': 'Full proof: for every 64-bit from/to and every machine state, the byte sequences produced by the (regenerated) emitters execute under the mini ISA specification to exactly the intended RIP/RDX (PC/X26/X10|X27); the relative form is chosen iff the encoded displacement fits, and then lands on the destination. The emitters are re-translated from the Go source on every run, so an edit to them is re-proved or breaks the proof.',
-    'level_note': 'Trusted: Lean kernel (axioms propext, Classical.choice, Quot.sound only), tools/gen translator and the hand-written mini ISA (both cross-checked on every run against the real Go emitters and the toolchain reference decoders on ~40k pairs incl. the +-2GiB boundary), totalised slice indexing in generated code. Not modelled: instruction fetch of freshly written code.',
+    'level_text': 'Proof, with one clause partial (known finding F5). For every 64-bit from/to and every machine state the byte sequences produced by the (regenerated) emitters execute under the mini ISA specification to exactly the intended RIP/RDX (PC/X26/X10|X27) when diverting a function and when entering an interface stub; the relative form of the jump back is chosen iff some rel32 reaches the destination and then lands exactly on it with no register changed, also when composed with the placement used at the call site (from = trampoline + length of the relocated head); every stub fits the interfaceJumpDataLen slot. The full clause "return from a trampoline lands exactly on the destination" (C15.ReturnExact) is FALSE for the absolute form (MOV RDX,to; JMP [RDX] lands on [to] and clobbers RDX): proved as return_exact_partial + Findings/C15F5.not_returnExact and reported as KNOWN-FINDING F5. The emitters are re-translated from the Go source on every run, so an edit to them is re-proved or breaks the proof.',
+    'level_note': 'Trusted: Lean kernel (axioms propext, Classical.choice, Quot.sound only), tools/gen translator and the hand-written mini ISA (both cross-checked on every run against the real Go emitters and the toolchain reference decoders on ~45k pairs incl. the +-2GiB boundary), totalised slice indexing in generated code (bounds behaviour of checkAlreadyPatch compared by the c15.cap lane). Call sites (argument wiring of jumpdata.go:53, make_method.go:23/40, fix_origin_amd64.go:58) are tied by observation only: the site lane reads back what real patches leave in memory in this binary; jump_back_site states the placement obligation. arm64: jmpToOriginFunctionValue is panic("not support yet") — guarded by arm64_origin_unimplemented, no landing claim; jmpWithRdxAndCtx has no caller (theorem kept). Not modelled: instruction fetch of freshly written code (arm64 i-cache), that X10 is an ABIInternal argument register on arm64.',
 }
 
-GEN = ['JmpAmd64', 'JmpArm64', 'Jmp386', 'JmpIfaceAmd64', 'JmpIfaceArm64']
+GEN = ['JmpAmd64', 'JmpArm64', 'Jmp386', 'JmpIfaceAmd64', 'JmpIfaceArm64', 'IfaceConst']
 M64 = (1 << 64) - 1
-KINDS = ['amd64.entry', 'amd64.origin', 'amd64.relative', 'amd64.stub', 'arm64.entry', 'arm64.stub', 'arm64.stubctx', 'i386.entry']
+RDX0 = 0xdddddddddddddddd       # initial RDX of both interpreters
+A64INIT = 0xa0a0a0a000           # initial Xr = A64INIT + r
+KINDS = ['amd64.entry', 'amd64.origin', 'amd64.relative', 'amd64.stub', 'arm64.entry', 'arm64.stub', 'arm64.stubctx',
+         'arm64.origin', 'i386.entry']
+F5_KEY = 'F5-absolute-jump-back'
+CHUNK = 400_000                  # ops per chunk: the thorough tier streams ~20M ops through files, never holds them all
 
-PROBES = [  # tag, package (virtual dirs are created by overlay), probe file, re-hosted source
-    ('c15-patch', 'internal/patch', {'zz_verif_c15_test.go': 'c15/patch_probe_test.go'}, None),
-    ('c15-iface', 'internal/iface', {'zz_verif_c15_test.go': 'c15/iface_probe_test.go'}, None),
-    ('c15-a64patch', 'internal/zzverif/a64patch', {'zz_verif_c15_test.go': 'c15/a64patch_probe_test.go'},
-     {'emit_a64.go': 'internal/patch/monkey_arm64.go'}),
-    ('c15-a64iface', 'internal/zzverif/a64iface', {'zz_verif_c15_test.go': 'c15/a64iface_probe_test.go'},
-     {'emit_a64.go': 'internal/iface/jmp_arm64.go'}),
-    ('c15-i386patch', 'internal/zzverif/i386patch', {'zz_verif_c15_test.go': 'c15/i386patch_probe_test.go'},
-     {'emit_i386.go': 'internal/patch/monkey_386.go'}),
+# tag, package (virtual dirs are created by overlay), {virtual file: probe file}, re-hosted sources, lanes, build env
+PROBES = [
+    ('patch', 'internal/patch', {'zz_verif_c15_test.go': 'c15/patch_probe_test.go', 'zz_verif_c15site_test.go': 'c15/patch_site_test.go'},
+     None, ('emit', 'site'), None),
+    ('iface', 'internal/iface', {'zz_verif_c15_test.go': 'c15/iface_probe_test.go', 'zz_verif_c15site_test.go': 'c15/iface_site_test.go'},
+     None, ('emit', 'site'), None),
+    ('a64patch', 'internal/zzverif/a64patch', {'zz_verif_c15_test.go': 'c15/a64patch_probe_test.go'},
+     {'emit_a64.go': 'internal/patch/monkey_arm64.go'}, ('emit',), None),
+    ('a64iface', 'internal/zzverif/a64iface', {'zz_verif_c15_test.go': 'c15/a64iface_probe_test.go'},
+     {'emit_a64.go': 'internal/iface/jmp_arm64.go'}, ('emit',), None),
+    # the 386 emitter runs as a real 32-bit program (uintptr is 32 bits, as on the target); falls back to the amd64 re-host
+    ('i386patch', 'internal/zzverif/i386patch', {'zz_verif_c15_test.go': 'c15/i386patch_probe_test.go'},
+     {'emit_i386.go': 'internal/patch/monkey_386.go'}, ('emit',), {'GOARCH': '386', 'CGO_ENABLED': '0'}),
 ]
 
 
+class Scratch:
+    """Per-process scratch names under BUILD, so that two concurrent C15 runs cannot touch each other's files."""
+
+    def __init__(self, what):
+        self.tag = f'c15-{what}-{os.getpid()}'
+        self.files = []
+
+    def path(self, name):
+        p = os.path.join(C.BUILD, f'{self.tag}.{name}')
+        self.files.append(p)
+        return p
+
+    def cleanup(self):
+        for p in self.files:
+            try:
+                os.remove(p)
+            except OSError:
+                pass
+
+
+# ------------------------------------------------------------------ generators
+
 def gen_pairs(tier, rng):
-    """(from,to) pairs: every 16-bit lane (strided in quick), the ±2 GiB decision boundary, 0 / 2^63 / 2^64 edges, random."""
-    pairs = []
+    """(from,to) pairs: every 16-bit lane (strided in quick), the ±2 GiB decision boundary, 0 / 2^63 / 2^64 edges, random.
+    A generator: the thorough tier never materialises the whole list."""
     stride = 1 if tier == 'thorough' else 251
     bases = [0, 0x0000004000401000]
     for lane in range(4):
         for v in range(0, 65536, stride):
-            pairs.append((0x401000, v << (16 * lane)))
+            yield (0x401000, v << (16 * lane))
         for v in (1, 0x7fff, 0x8000, 0xffff):
             for b in bases:
-                pairs.append((b, (b & ~(0xffff << (16 * lane))) | (v << (16 * lane))))
+                yield (b, (b & ~(0xffff << (16 * lane))) | (v << (16 * lane)))
     kmax = 64 if tier == 'quick' else 4096
     for base in (0x100000000, 0x7f0000000000, 0x401000, 0xffffffff00000000, 1 << 63):
         for k in range(-kmax, kmax + 1):
             for d in ((1 << 31) + k, -(1 << 31) + k):
-                pairs.append((base, (base + d) & M64))       # to = from + d
-                pairs.append(((base + d) & M64, base))
+                yield (base, (base + d) & M64)       # to = from + d
+                yield ((base + d) & M64, base)
     for k in range(-8, 9):
         for base in (0, 1 << 63, M64, 0x401000):
-            pairs.append((base, (base + k) & M64))
-            pairs.append((base, (base + (1 << 63) + k) & M64))
-    n = 2000 if tier == 'quick' else 2_000_000
+            yield (base, (base + k) & M64)
+            yield (base, (base + (1 << 63) + k) & M64)
+    # the arm64 interpreters start from Xr = A64INIT + r: destinations that coincide with those markers
+    for r in (10, 26, 27):
+        yield (0x401000, A64INIT + r)
+        yield (0x401000, (~(A64INIT + r)) & M64)
+    n = 2000 if tier == 'quick' else 1_200_000
     for _ in range(n):
         f = rng.next()
         mode = rng.below(4)
@@ -67,163 +109,727 @@ def gen_pairs(tier, rng):
             t = (f + (1 << 31) * (1 if rng.below(2) else -1) + rng.below(64) - 32) & M64
         else:
             t = rng.next() & ((1 << rng.below(65)) - 1)
-        pairs.append((f, t))
-    return pairs
+        yield (f, t)
+
+
+def pair_ops(f, t):
+    for k in KINDS:
+        if k == 'i386.entry':
+            yield f'emit {k} {f & 0xffffffff:#x} {t & 0xffffffff:#x}'
+        else:
+            yield f'emit {k} {f:#x} {t:#x}'
+
+
+def extra_ops(rng):
+    """conc lane (concurrent callers of the pure emitters) and c15.cap lane (the real checkAlreadyPatch on byte strings:
+    emitted entry sequences, the two jump-back forms, empty (Go panics on origin[0]), single bytes, random strings)."""
+    ops = []
+    for g in (2, 8, 16):
+        ops.append(f'conc amd64.stub {0x7f0000001000 + g:#x} {g}')
+        ops.append(f'conc amd64.entry {0xc000100000 + g:#x} {g}')
+    caps = ['-', '90', '00', '9090', 'cc', '48ba', 'e9fcffff7f', 'ff22', '0090', '9048ba0010400000000000ff22']
+    for _ in range(40):
+        to = rng.next() & ((1 << rng.below(65)) - 1)
+        caps.append('9048ba' + to.to_bytes(8, 'little').hex() + 'ff22')      # what jmpToFunctionValue emits
+        caps.append('48ba' + to.to_bytes(8, 'little').hex() + 'ff22')        # absolute jump back
+        caps.append('ba' + (to & 0xffffffff).to_bytes(4, 'little').hex() + 'ff22')
+        n = 1 + rng.below(16)
+        b = bytes(rng.below(256) for _ in range(n))
+        if rng.below(2):
+            b = b'\x90' + b[1:]
+        caps.append(b.hex())
+    for c in dict.fromkeys(caps):
+        ops.append(f'c15.cap amd64 {c}')
+        ops.append(f'c15.cap i386 {c}')
+    return ops
+
+
+N_ORIGINS, N_TRAMPS, N_RAW = 5, 3, 4
+
+
+def site_ops(tier, rng):
+    ops = []
+    for i in range(8):
+        x = rng.next() & ((1 << (8 + rng.below(57))) - 1)
+        ops.append(f'site patch.gen {rng.below(N_ORIGINS)} {x:#x} {rng.next() & 0xffffffffff:#x}')
+    for oi in range(N_ORIGINS):
+        ops.append(f'site patch.apply {oi} {rng.below(7)}')
+    # the same origin through placeholder A, B, A again; a second origin through the same placeholders; every origin once;
+    # hand-assembled origins in an executable page (r<zoo>p<int3 padding>:n = placeholder in the same page): functions barely
+    # longer than the moved head, relocated copy longer than / as long as / shorter than the whole function
+    ops.append('site patch.jumpback o0:t0 o0:t1 o0:t0 o1:t0 o1:t1 o3:t2 o3:t0 o4:t1 o4:t2 o2:t2 o0:t2')
+    ops.append('site patch.jumpback r0p1:n r0p2:n r0p5:n r1p1:n r1p4:n r2p3:n r3p2:n r1p1:n')
+    for _ in range(2 if tier == 'quick' else 12):
+        steps = []
+        o = rng.below(N_ORIGINS)
+        for _ in range(6 + rng.below(4)):
+            if rng.below(3) == 0:
+                o = rng.below(N_ORIGINS)
+            if rng.below(4) == 0:
+                steps.append(f'r{rng.below(N_RAW)}p{1 + rng.below(6)}:n')
+            else:
+                steps.append(f'o{o}:t{rng.below(N_TRAMPS)}')
+        ops.append('site patch.jumpback ' + ' '.join(steps))
+    # origin in an mmap'ed page, placeholder a Go function in the text segment: more than 2 GiB apart, the absolute form of
+    # the jump back is really emitted and really executed (alone in its history: on the unrepaired code this kills the child)
+    ops.append(f'site patch.jumpback r1p{1 + rng.below(4)}:t{rng.below(N_TRAMPS)}')
+    for k in range(3 if tier == 'quick' else 12):
+        ops.append(f'site iface.caller {k}')
+        ops.append(f'site iface.callerctx {k}')
+    return ops
+
+
+# ------------------------------------------------------------------ property oracle on the implementation's observations
+
+def kvs(obs):
+    return dict(p.split('=', 1) for p in obs.replace(',', ' ').split() if '=' in p)
+
+
+def hx(s):
+    return int(s, 16)
+
+
+def sdisp(f, t):
+    d = (t - f - 5) & M64
+    return d - (1 << 64) if d >> 63 else d
+
+
+def oracle_origin(f, t, kv):
+    """Return from a trampoline: control arrives at exactly `to`, nothing else changes.  Returns (why, finding key)."""
+    bs = kv.get('bytes', '')
+    rip, rdx = hx(kv['rip']), hx(kv['rdx'])
+    if rip == t and rdx == RDX0:
+        return None, None
+    fits = -(1 << 31) <= sdisp(f, t) <= (1 << 31) - 1
+    f5 = bs == '48ba' + t.to_bytes(8, 'little').hex() + 'ff22' and rip == (~t) & M64 and rdx == t
+    if f5 and not fits:
+        return (f'absolute form of the jump back lands on [to]={kv["rip"]} (the code bytes stored at the destination) with '
+                f'rdx clobbered to {kv["rdx"]}, wanted rip={t:#x} and rdx unchanged'), F5_KEY
+    if f5:
+        return f'the absolute (indirect) form was chosen although to-(from+5) fits rel32; it lands on [to]={kv["rip"]}, wanted {t:#x}', None
+    form = 'relative form' if len(bs) == 10 else f'{len(bs) // 2}-byte form'
+    return f'{form} lands on {kv["rip"]} with rdx={kv["rdx"]}, wanted rip={t:#x} and rdx unchanged', None
 
 
 def oracle(kind, f, t, obs):
-    """The property itself, stated on what the implementation emitted (as interpreted by the reference decoder)."""
+    """The property itself, stated on what the implementation emitted (as interpreted by the reference decoder).
+    Returns (why | None, known-finding key | None)."""
     if obs is None:
-        return 'no observation (probe crashed?)'
-    kv = dict(p.split('=', 1) for p in obs.replace(',', ' ').split() if '=' in p)
-    inv = (~t) & M64
-    hx = lambda s: int(s, 16)
+        return 'no observation (probe crashed?)', None
     if kind == 'amd64.relative':
-        return None
+        return None, None
+    if kind == 'arm64.origin':
+        # no arm64 jump back exists (panic): nothing is emitted, nothing to land.  Anything else needs a theorem first.
+        return (None if obs == 'panic' else 'arm64 jmpToOriginFunctionValue now emits code, but C15 has no landing theorem/oracle for it'), None
     if 'undecodable' in obs:
-        return 'emitted bytes are not the expected instruction sequence'
+        return 'emitted bytes are not the expected instruction sequence', None
+    kv = kvs(obs)
+    inv = (~t) & M64
     bs = kv.get('bytes', '')
     if kind in ('amd64.entry', 'amd64.stub'):
         if kind == 'amd64.entry' and (len(bs) != 26 or not bs.startswith('90')):
-            return 'entry jump must be 13 bytes starting with the NOP sentinel'
+            return 'entry jump must be 13 bytes starting with the NOP sentinel', None
         if hx(kv['rip']) != inv or hx(kv['rdx']) != t:
-            return f'lands on {kv["rip"]} with rdx={kv["rdx"]}, wanted [to] with rdx=to'
+            return f'lands on {kv["rip"]} with rdx={kv["rdx"]}, wanted [to] with rdx=to', None
     elif kind == 'amd64.origin':
-        if len(bs) == 10:
-            if hx(kv['rip']) != t:
-                return f'relative form lands on {kv["rip"]}, wanted {t:#x}'
-        elif hx(kv['rip']) != inv or hx(kv['rdx']) != t:
-            return f'absolute form lands on {kv["rip"]} rdx={kv["rdx"]}'
+        return oracle_origin(f, t, kv)
     elif kind.startswith('arm64.'):
-        scratch = 'x10' if kind == 'arm64.entry' else 'x27'
-        regs = {k: hx(v) for k, v in kv.items() if k.startswith('x')}
-        if hx(kv['pc']) != inv or regs.get('x26') != t or regs.get(scratch) != inv or set(regs) - {'x26', scratch}:
-            return f'pc={kv["pc"]} regs={regs}'
+        sc = 10 if kind == 'arm64.entry' else 27
+        regs = {int(k[1:]): hx(v) for k, v in kv.items() if k[0] == 'x' and k[1:].isdigit()}
+        val = lambda r: regs.get(r, A64INIT + r)      # a register whose new value equals its initial marker is not listed
+        if hx(kv['pc']) != inv or val(26) != t or val(sc) != inv or set(regs) - {26, sc}:
+            return f'pc={kv["pc"]} regs={regs}', None
     elif kind == 'i386.entry':
         t32 = t & 0xffffffff
         if hx(kv['edx']) != t32 or hx(kv['eip']) != (~t32) & 0xffffffff:
-            return f'eip={kv["eip"]} edx={kv["edx"]}'
+            return f'eip={kv["eip"]} edx={kv["edx"]}', None
+    return None, None
+
+
+def oracle_op(op, obs):
+    tk = op.split()
+    if tk[0] == 'conc':
+        return (None if obs == 'conc ok' else f'concurrent callers of the emitter got wrong bytes: {obs}'), None
+    if tk[0] == 'c15.cap':
+        # the sentinel test itself: a byte string counts as patched iff it starts with the NOP sentinel (0x90)
+        want = 'panic' if tk[2] == '-' else f'patched={"true" if tk[2].startswith("90") else "false"}'
+        return (None if obs == want else f'checkAlreadyPatch({tk[2]}) = {obs}, wanted {want}'), None
+    return oracle(tk[1], int(tk[2], 16), int(tk[3], 16), obs)
+
+
+def entry_check(kv, pre=''):
+    """A diverted function: 13 bytes, NOP sentinel, RDX = the function value, RIP = [function value]."""
+    arg = hx(kv['arg'])
+    bs = kv.get(pre + 'bytes', '')
+    if pre + 'rip' not in kv:
+        return 'the bytes at the origin are not the divert sequence'
+    if len(bs) != 26 or not bs.startswith('90'):
+        return f'entry jump {bs} is not 13 bytes starting with the NOP sentinel'
+    if hx(kv[pre + 'rdx']) != arg or hx(kv[pre + 'rip']) != (~arg) & M64:
+        return f'origin now jumps to {kv[pre + "rip"]} with rdx={kv[pre + "rdx"]}, wanted [arg] with rdx=arg={arg:#x}'
     return None
 
 
-def build_probes():
+def site_oracle(op, obs):
+    """Property oracle for the call-site lane.  Returns (why | None, finding key | None, derived [(emit line, impl line)], stats)."""
+    why, key, derived, st = _site_oracle(op, obs)
+    return why, (key if why else None), derived, st
+
+
+def _site_oracle(op, obs):
+    tk = op.split()
+    derived, st = [], {'steps': 0, 'refused': 0, 'widened': 0, 'far': 0}
+    if obs is None:
+        return 'no observation', None, derived, st
+    if tk[1] in ('patch.gen', 'patch.apply'):
+        if obs.startswith('err:'):
+            return f'refused: {obs}', None, derived, st
+        kv = kvs(obs)
+        pre = '' if tk[1] == 'patch.gen' else 'e'
+        if 'crashed:' in obs or pre + 'bytes' not in kv:
+            return f'incomplete observation: {obs[-120:]}', None, derived, st
+        derived.append((f'emit amd64.entry {kv["origin"]} {kv["arg"]}', f'bytes={kv[pre + "bytes"]} rip={kv.get(pre + "rip")} rdx={kv.get(pre + "rdx")}'))
+        why = entry_check(kv, pre)
+        if why:
+            return why, None, derived, st
+        if tk[1] == 'patch.gen':
+            if hx(kv['arg']) != int(tk[3], 16):
+                return 'probe echo mismatch', None, derived, st
+            return None, None, derived, st
+        if kv['deref'] != kv['code']:
+            return f'[replacementInAddr]={kv["deref"]} is not the code of the replacement {kv["code"]}', None, derived, st
+        if kv.get('call') != kv.get('want') or kv.get('call') is None:
+            return f'calling the patched function gave {kv.get("call")}, the replacement gives {kv.get("want")}', None, derived, st
+        if kv.get('restored') != 'true' or kv.get('after') != kv.get('wantafter'):
+            return f'after unpatch: restored={kv.get("restored")} result={kv.get("after")} wanted {kv.get("wantafter")}', None, derived, st
+        return None, None, derived, st
+    if tk[1] == 'patch.jumpback':
+        segs, tl = obs.split(' | '), []
+        while segs and (segs[-1] == 'running' or segs[-1].startswith('crashed:')):
+            tl.insert(0, segs.pop())
+        tail = ' '.join(tl) if tl else None
+        why = fkey = fwhy = None
+        for si, seg in enumerate(segs):
+            kv = kvs(seg)
+            if 'refused:' in seg:
+                st['refused'] += 1
+                continue
+            if 'origin' not in kv:
+                why = why or f'step {si}: {seg}'
+                continue
+            st['steps'] += 1
+            origin, tramp, n, off = hx(kv['origin']), hx(kv['tramp']), int(kv['n']), int(kv['off'])
+            if 'ebytes' in kv:
+                derived.append((f'emit amd64.entry {kv["origin"]} {kv["arg"]}', f'bytes={kv["ebytes"]} rip={kv.get("erip")} rdx={kv.get("erdx")}'))
+            w = entry_check(kv, 'e')
+            if w is None and kv.get('fix') != kv['tramp']:
+                w = f'FixOriginFunc()={kv.get("fix")} is not the placeholder {kv["tramp"]}'
+            if w is None and 'walk' in kv:
+                w = f'placeholder is not "relocated head, then a jump back" ({kv["walk"]} after {kv["k"]} instructions)'
+            if w is None:
+                f_, t_ = (tramp + off) & M64, (origin + n) & M64
+                derived.append((f'emit amd64.origin {f_:#x} {t_:#x}', f'bytes={kv["bytes"]} rip={kv.get("rip")} rdx={kv.get("rdx")}'))
+                st['widened'] += off > n
+                st['far'] += abs(sdisp(f_, t_)) >= 1 << 31
+                if 'rip' not in kv:
+                    w = f'the jump back at placeholder+{off} is undecodable ({kv["bytes"]})'
+                elif n < len(kv.get('ebytes', '')) // 2:
+                    w = f'jump back after {n} origin bytes, but the entry jump overwrote {len(kv["ebytes"]) // 2}'
+                else:
+                    w, key = oracle_origin(f_, t_, kv)
+                    if w:
+                        w = (f'jump back of origin {origin:#x} in placeholder {tramp:#x}+{off}: {w} = origin+{n}, the first origin '
+                             f'instruction that was not relocated ({kv["k"]} instructions copied)')
+                    if w and key:
+                        # the known shape; that the call through the placeholder then dies is its consequence
+                        fkey, fwhy = key, fwhy or f'step {si} ({tk[2 + si] if 2 + si < len(tk) else "?"}): {w}' + (
+                            '' if 'call' in kv else '; calling through the placeholder killed the process')
+                        w = None
+                        if 'call' not in kv:
+                            continue
+            if w is None and 'call' not in kv:
+                w = f'calling through the placeholder {tramp:#x} did not return (process died)'
+            if w is None and (kv['call'] != kv['want'] or kv['mock'] != kv['wantmock'] or kv.get('after') != kv['want']):
+                w = (f'through placeholder: {kv["call"]} (original gives {kv["want"]}); mocked call {kv["mock"]} (replacement gives '
+                     f'{kv["wantmock"]}); after unpatch {kv.get("after")}')
+            if w and not why:
+                why = f'step {si} ({tk[2 + si] if 2 + si < len(tk) else "?"}): {w}'
+        if why is None and tail is not None and not (fkey and 'call' not in kvs(segs[-1] if segs else '')):
+            why = f'history did not complete: {tail}'
+        if why is None and tail is None and len(segs) != len(tk) - 2:
+            why = f'{len(segs)} steps observed, {len(tk) - 2} requested'
+        if why is None and fkey:
+            return fwhy, fkey, derived, st
+        return why, None, derived, st
+    if tk[1] in ('iface.caller', 'iface.callerctx'):
+        if obs.startswith('err:'):
+            return f'refused: {obs}', None, derived, st
+        kv = kvs(obs)
+        if 'bytes' not in kv:
+            return f'incomplete observation: {obs[-120:]}', None, derived, st
+        arg = hx(kv['arg'])
+        derived.append((f'emit amd64.stub {kv["stub"]} {kv["arg"]}', f'bytes={kv["bytes"]} rip={kv.get("rip")} rdx={kv.get("rdx")}'))
+        if 'rip' not in kv:
+            return f'the stub at {kv["stub"]} is not the expected instruction sequence ({kv["bytes"]})', None, derived, st
+        if hx(kv['rdx']) != arg or hx(kv['rip']) != (~arg) & M64:
+            return (f'stub enters {kv["rip"]} with context rdx={kv["rdx"]}, wanted [p] with rdx=p={arg:#x} '
+                    f'(p = the {"ctx" if "to" in kv else "to"} pointer passed)'), None, derived, st
+        if 'to' in kv and kv['deref'] != kv['to']:
+            return 'probe setup: [ctx] != to', None, derived, st
+        if len(kv['bytes']) // 2 > int(kv['slot']):
+            return f'stub of {len(kv["bytes"]) // 2} bytes does not fit its {kv["slot"]}-byte slot', None, derived, st
+        if kv.get('call') is None or kv['call'] != kv.get('want'):
+            return f'calling through the stub gave {kv.get("call")}, the closure gives {kv.get("want")}', None, derived, st
+        return None, None, derived, st
+    return f'unknown site op {op}', None, derived, st
+
+
+# ------------------------------------------------------------------ building and running
+
+def _overlay_build(tag, pkg, files, extra_pkgs, env_extra):
+    """C.overlay_build with an environment override (GOARCH=386 for the 32-bit probe)."""
+    import json
+    repl = {}
+    pdir = os.path.join(C.REPO, pkg) if pkg else C.REPO
+    for vname, real in files.items():
+        repl[os.path.join(pdir, vname)] = real
+    for vdir, fmap in (extra_pkgs or {}).items():
+        for vname, real in fmap.items():
+            repl[os.path.join(C.REPO, vdir, vname)] = real
+    ov = os.path.join(C.BUILD, f'{tag}.overlay.json')
+    json.dump({'Replace': repl}, open(ov, 'w'), indent=1)
+    out = os.path.join(C.BUILD, f'{tag}.test')
+    if os.path.exists(out):
+        os.remove(out)
+    cmd = ['go', 'test', '-c', '-o', out, '-overlay', ov, '-vet=off', './' + pkg]   # no -gcflags=all=-l: the 386 runtime built without inlining crashes in its GC write barrier
+    rc, o, e = C.sh(cmd, cwd=C.REPO, env=C.goenv(env_extra), timeout=1800)
+    if rc != 0 or not os.path.exists(out):
+        return None, o + e
+    return out, ''
+
+
+def build_probes(sc):
     helpers = C.helper_pkgs()
     bins = []
-    for tag, pkg, files, rehost in PROBES:
+    for ptag, pkg, files, rehost, lanes, env in PROBES:
         fm = {k: os.path.join(C.HARNESS, v) for k, v in files.items()}
         extra = dict(helpers)
+        tag = f'{sc.tag}-{ptag}'
+        sc.files += [os.path.join(C.BUILD, f'{tag}.overlay.json'), os.path.join(C.BUILD, f'{tag}.test')]
         if rehost:
             vdir = dict(fm)
             for k, v in rehost.items():
                 vdir[k] = os.path.join(C.REPO, v)
             extra[pkg] = vdir
-            b, err = C.overlay_build(tag, pkg, {}, extra)
-        else:
+            fm = {}
+        b, err = _overlay_build(tag, pkg, fm, extra, env) if env else C.overlay_build(tag, pkg, fm, extra)
+        native = bool(env)
+        if b is None and env:           # no 32-bit toolchain/kernel support here: fall back to the amd64 re-host
+            C.log(f'C15: {ptag} does not build for {env}; falling back to the amd64 re-host')
             b, err = C.overlay_build(tag, pkg, fm, extra)
+            native = False
         if b is None:
-            raise C.Infra(f'probe {tag} does not build against the current tree:\n{err[-3000:]}')
-        bins.append((tag, b))
+            raise C.Infra(f'probe {ptag} does not build against the current tree:\n{err[-3000:]}')
+        bins.append({'tag': ptag, 'bin': b, 'lanes': lanes, 'native': native, 'pkg': pkg, 'fm': fm, 'extra': extra, 'btag': tag})
     return bins
 
 
-def execute(ops, tag='c15'):
-    """Run ops through every probe and through the model driver. Returns (impl, model)."""
-    ops_path = os.path.join(C.BUILD, f'{tag}.ops')
-    open(ops_path, 'w').write('\n'.join(ops) + '\n')
-    impl = [None] * len(ops)
-    for ptag, b in build_probes():
-        outp = os.path.join(C.BUILD, f'{tag}.{ptag}.impl')
-        rc, log = C.run_probe(b, 'TestVerifC15', ops_path, outp)
+def run_once(binary, test, ops_path, out_path, timeout, env=None):
+    """One probe process.  Returns (rc, log); a timeout is rc=-9."""
+    try:
+        return C.run_probe(binary, test, ops_path, out_path, timeout=timeout, env=env)
+    except subprocess.TimeoutExpired:
+        return -9, f'timeout after {timeout}s'
+
+
+def run_emit(bins, ops, sc, what='emit'):
+    """Run ops through every emit probe (one retry each on a non-zero exit / timeout) and through the model driver;
+    the six processes run side by side."""
+    from concurrent.futures import ThreadPoolExecutor
+    ops_path = sc.path(f'{what}.ops')
+    with open(ops_path, 'w') as f:
+        f.write('\n'.join(ops) + '\n')
+
+    def one(p):
+        outp = sc.path(f'{what}.{p["tag"]}.impl')
+        rc, log = 1, ''
+        for attempt in (1, 2):
+            rc, log = run_once(p['bin'], 'TestVerifC15', ops_path, outp, 1800)
+            if rc == 0:
+                break
+            if p['native'] and attempt == 1:      # e.g. the kernel cannot exec 32-bit programs: use the re-host from now on
+                C.log(f'C15: native {p["tag"]} probe failed (rc={rc}); falling back to the amd64 re-host')
+                b, err = C.overlay_build(p['btag'], p['pkg'], p['fm'], p['extra'])
+                if b is None:
+                    raise C.Infra(f'probe {p["tag"]} does not build against the current tree:\n{err[-3000:]}')
+                p['bin'], p['native'] = b, False
+            else:
+                C.log(f'C15: probe {p["tag"]} rc={rc}, attempt {attempt}')
         if rc != 0:
-            raise C.Infra(f'probe {ptag} failed rc={rc}:\n{log[-2000:]}')
-        for i, v in enumerate(C.read_indexed(outp, len(ops))):
-            if v is not None:
-                impl[i] = v
-    exe, err = C.build_driver()
-    if exe is None:
-        return impl, None, err
-    model = C.run_driver(exe, ops_path, os.path.join(C.BUILD, f'{tag}.model'))
-    return impl, model, ''
+            raise C.Infra(f'probe {p["tag"]} failed twice rc={rc}:\n{log[-2000:]}')
+        return C.read_indexed(outp, len(ops))
+
+    impl = [None] * len(ops)
+    with ThreadPoolExecutor(max_workers=6) as ex:
+        fm = ex.submit(run_model, ops_path, sc, what)
+        futs = [ex.submit(one, p) for p in bins if 'emit' in p['lanes']]
+        for fu in futs:
+            for i, v in enumerate(fu.result()):
+                if v is not None:
+                    impl[i] = v
+        model = fm.result()
+    return impl, model
+
+
+_DRIVER = {}
+
+
+def run_model(ops_path, sc, what):
+    if 'exe' not in _DRIVER:
+        _DRIVER['exe'], _DRIVER['err'] = C.build_driver()
+    if _DRIVER['exe'] is None:
+        return None
+    return C.run_driver(_DRIVER['exe'], ops_path, sc.path(f'{what}.model'))
+
+
+def crash_class(rc, log):
+    for sig in ('SIGSEGV', 'SIGILL', 'SIGBUS', 'SIGTRAP', 'SIGABRT', 'SIGFPE', 'fatal error', 'timeout', 'panic:'):
+        if sig in log:
+            return sig.rstrip(':').replace(' ', '-')
+    return f'rc={rc}'
+
+
+def run_site(bins, ops, sc):
+    """Run the site ops in child processes.  A process that dies (wrong machine code is a SIGSEGV) or times out is
+    restarted on the remaining ops; the op it died in is retried once alone-first, and only a crash that reproduces is
+    recorded (`crashed:<class>` appended to what the op had already observed)."""
+    obs = [None] * len(ops)
+    lanes = {'patch': [i for i, o in enumerate(ops) if o.split()[1].startswith('patch.')],
+             'iface': [i for i, o in enumerate(ops) if o.split()[1].startswith('iface.')]}
+    flakes = []
+    for p in bins:
+        if 'site' not in p['lanes']:
+            continue
+        pending, tries = list(lanes[p['tag']]), {}
+        rounds = 0
+        while pending and rounds < 2 * len(ops) + 4:
+            rounds += 1
+            ops_path, outp = sc.path(f'site.{p["tag"]}.ops'), sc.path(f'site.{p["tag"]}.impl')
+            with open(ops_path, 'w') as f:
+                f.write('\n'.join(ops[i] for i in pending) + '\n')
+            # relocated code runs inside functions whose stack maps describe other code: keep the runtime's signal-based
+            # preemption out of that window (the probe also disables the collector)
+            rc, log = run_once(p['bin'], 'TestVerifC15Site', ops_path, outp, 600, env={'GODEBUG': 'asyncpreemptoff=1'})
+            got = C.read_indexed(outp, len(pending))
+            rest = []
+            for j, i in enumerate(pending):
+                if got[j] is not None and not got[j].endswith('running'):
+                    obs[i] = got[j]
+                else:
+                    rest.append((i, got[j]))
+            if rc == 0 or not rest:
+                break                                      # ops the probe skipped stay None -> floor below
+            i, partial = rest[0]
+            tries[i] = tries.get(i, 0) + 1
+            if tries[i] >= 2:
+                obs[i] = ((partial or '').rstrip() + ' | ' if partial else '') + 'crashed:' + crash_class(rc, log)
+                rest = rest[1:]
+                flakes[:] = [f for f in flakes if f[0] != ops[i]]      # it reproduced: not a flake
+            else:
+                flakes.append((ops[i], crash_class(rc, log)))
+            pending = [i for i, _ in rest]
+    return obs, flakes
+
+
+class Distinct:
+    """Counts distinct (kind, observation) pairs across chunks without keeping them: hashes spilled to a file."""
+
+    def __init__(self, sc):
+        self.path = sc.path('distinct')
+        self.f = open(self.path, 'w')
+
+    def add(self, items):
+        self.f.write(''.join(f'{hash(x) & M64:016x}\n' for x in set(items)))
+
+    def count(self):
+        self.f.close()
+        p = subprocess.run(f'LC_ALL=C sort -u {self.path} | wc -l', shell=True, capture_output=True, text=True)
+        return int(p.stdout.strip() or 0)
+
+
+def chunks(it, n):
+    buf = []
+    for x in it:
+        buf.append(x)
+        if len(buf) >= n:
+            yield buf
+            buf = []
+    if buf:
+        yield buf
+
+
+def emit_stream(tier, rng):
+    """All emit/conc/cap ops of a run, duplicates of a pair dropped while streaming (consecutive lanes repeat edges)."""
+    seen = set()
+    for op in extra_ops(rng.fork('extra')):
+        yield op
+    for f, t in gen_pairs(tier, rng):
+        key = (f << 64) | t
+        if key in seen:
+            continue
+        if len(seen) < 1_000_000:
+            seen.add(key)
+        for op in pair_ops(f, t):
+            yield op
+
+
+def regen(sc):
+    """C.regen with per-process scratch names (translator binary, output directory), so that concurrent runs do not
+    delete each other's files.  The generated text only depends on the tree, so writing Gen/ from two runs is harmless."""
+    import shutil
+    gen = sc.path('gen')
+    rc, o, e = C.sh(['go', 'build', '-o', gen, '.'], cwd=os.path.join(C.VERIF, 'tools', 'gen'), env=C.goenv())
+    if rc != 0:
+        raise C.Infra('building tools/gen failed:\n' + e)
+    tmp = sc.path('gen-out')
+    shutil.rmtree(tmp, ignore_errors=True)
+    os.makedirs(tmp)
+    try:
+        rc, o, e = C.sh([gen, '-repo', C.REPO, '-spec', os.path.join(C.VERIF, 'tools', 'gen', 'spec.json'), '-out', tmp, '-only', ','.join(GEN)])
+        changed = []
+        os.makedirs(C.GEN_DIR, exist_ok=True)
+        for m in GEN:
+            src, dst = os.path.join(tmp, m + '.lean'), os.path.join(C.GEN_DIR, m + '.lean')
+            if not os.path.exists(src):
+                raise C.Infra(f'gen produced no output for {m}: {e}')
+            new = open(src).read()
+            old = open(dst).read() if os.path.exists(dst) else None
+            if new != old:      # keep mtime when unchanged so lake does not rebuild
+                t = dst + f'.{os.getpid()}.tmp'
+                open(t, 'w').write(new)
+                os.replace(t, dst)
+                changed.append(m)
+        return rc == 0, e.strip(), changed
+    finally:
+        shutil.rmtree(tmp, ignore_errors=True)
+
+
+def arm64_origin_guard():
+    """A clear message for the day someone implements the arm64 jump back (review A2/D1)."""
+    try:
+        src = open(os.path.join(C.GEN_DIR, 'JmpArm64.lean')).read()
+    except OSError:
+        return None
+    i = src.find('def jmpToOriginFunctionValue')
+    if i < 0:
+        return 'monkey_arm64.go no longer has jmpToOriginFunctionValue'
+    body = src[i:].split('\n\n', 1)[0]
+    if '.error "panic"' not in body or 'if ' in body:
+        return ('monkey_arm64.go jmpToOriginFunctionValue is no longer `panic(...)`: an arm64 jump back now exists, and C15 has no landing '
+                'theorem for it (replace C15.arm64_origin_unimplemented by a theorem about A64.exec of the emitted bytes and give the '
+                '`arm64.origin` kind an oracle)')
+    return None
+
+
+def name_failed_theorems(proof):
+    """`lake build failed at Props/C15.lean:220` -> the names of the theorems that no longer check."""
+    errs = [(f, int(l)) for f, l in proof.get('build_errors', []) if f.endswith('Props/C15.lean')]
+    if not errs:
+        return
+    import re
+    decl = []
+    for no, line in enumerate(open(os.path.join(C.LEAN, 'GoomVerif', 'Props', 'C15.lean')), 1):
+        m = re.match(r'\s*(theorem|def|example)\s*([A-Za-z_][\w\.\']*)?', line)
+        if m:
+            decl.append((no, m.group(2) or 'example'))
+    names = []
+    for _, l in errs:
+        cur = [n for no, n in decl if no <= l]
+        if cur and cur[-1] not in names:
+            names.append(cur[-1])
+    if names:
+        proof['failed'].append(('theorems', 'no longer proved against the regenerated definitions: ' + ', '.join('C15.' + n for n in names)))
 
 
 def run(tier):
     out = C.Outcome('C15', tier)
+    sc = Scratch(tier)
+    try:
+        return _run(tier, out, sc)
+    finally:
+        sc.cleanup()
+
+
+def _run(tier, out, sc):
     rng = C.Rng(C.seed()).fork('C15')
-    ok, msg, changed = C.regen(GEN)
+    ok, msg, changed = regen(sc)
     proof = C.prove('C15', leanchecker=(tier == 'thorough')) if ok else {'ok': False, 'failed': [('translator', msg)], 'obligations': 0,
                                                                             'discharged': 0, 'cmds': [], 'axioms': {}}
-    pairs = gen_pairs(tier, rng)
-    ops = []
-    for f, t in pairs:
-        for k in KINDS:
-            if k == 'i386.entry':
-                ops.append(f'emit {k} {f & 0xffffffff:#x} {t & 0xffffffff:#x}')
-            else:
-                ops.append(f'emit {k} {f:#x} {t:#x}')
-    ops = list(dict.fromkeys(ops))
-    # emitters are pure: results of concurrent callers (shared scratch buffers would show) must equal the hand-written encoding
-    for g in (2, 8, 16):
-        ops.append(f'conc amd64.stub {0x7f0000001000 + g:#x} {g}')
-        ops.append(f'conc amd64.entry {0xc000100000 + g:#x} {g}')
-    impl, model, derr = execute(ops)
-    # 1. the property on the implementation
-    bad = []
-    for i, op in enumerate(ops):
-        _, k, f, t = op.split()
-        if op.startswith('conc '):
-            why = None if impl[i] == 'conc ok' else f'concurrent callers of the emitter got wrong bytes: {impl[i]}'
-        else:
-            why = oracle(k, int(f, 16), int(t, 16), impl[i])
-        if why:
-            bad.append((i, op, why))
-    for i, op, why in bad[:3]:
-        out.violation(f'{op}: {why}', {'kind': 'impl-oracle', 'ops': [op], 'observed': impl[i], 'why': why,
+    name_failed_theorems(proof)
+    guard = arm64_origin_guard() if ok else None
+    if guard:
+        proof['ok'] = False
+        proof['failed'].insert(0, ('arm64.jmpToOriginFunctionValue', guard))
+    bins = build_probes(sc)
+
+    # ---- emit / conc / cap lanes, streamed in chunks
+    distinct = Distinct(sc)
+    bad, diffs, samples = [], [], []
+    n_ops = n_diff = n_f5 = 0
+    f5_example = None
+    per_kind = {}
+    rel = nor = 0
+    for chunk in chunks(emit_stream(tier, rng), CHUNK):
+        impl, model = run_emit(bins, chunk, sc)
+        nt = []
+        for i, op in enumerate(chunk):
+            tk = op.split()
+            kind = tk[1] if tk[0] == 'emit' else tk[0]
+            per_kind[kind] = per_kind.get(kind, 0) + (impl[i] is not None)
+            why, key = oracle_op(op, impl[i])
+            if why and key:
+                n_f5 += 1
+                f5_example = f5_example or (op, impl[i], why)
+            elif why and len(bad) < 20:
+                bad.append((op, impl[i], why))
+            elif why:
+                bad.append(None)
+            if impl[i] and 'undecodable' not in impl[i] and tk[0] == 'emit':
+                nt.append((kind, impl[i]))
+                if kind == 'amd64.origin':
+                    nor += 1
+                    rel += impl[i].startswith('bytes=e9') and len(impl[i].split()[0]) == 16
+        distinct.add(nt)
+        if model is not None:
+            d = C.diff_streams(chunk, impl, model, limit=1 << 60)
+            n_diff += len(d)
+            diffs += d[:20 - len(diffs)] if len(diffs) < 20 else []
+        if len(samples) < 4:
+            j = (len(chunk) // 3) * (len(samples) % 3)
+            samples.append({'op': chunk[j], 'impl': impl[j], 'model': model[j] if model else None})
+        n_ops += len(chunk)
+    for k in KINDS + ['conc', 'c15.cap']:
+        if per_kind.get(k, 0) < (6 if k == 'conc' else 100):
+            raise C.Infra(f'lane {k} produced {per_kind.get(k, 0)} observations: the probe for it ran nothing')
+
+    # ---- call-site lane
+    sops = site_ops(tier, rng.fork('site'))
+    sobs, flakes = run_site(bins, sops, sc)
+    sbad, derived, sstat = [], [], {'steps': 0, 'refused': 0, 'widened': 0, 'far': 0}
+    for op, o in zip(sops, sobs):
+        why, key, der, st = site_oracle(op, o)
+        for k in sstat:
+            sstat[k] += st[k]
+        derived += [(op, e, im) for e, im in der]
+        if why and key:
+            n_f5 += 1
+            f5_example = (op, o, why)          # the executed instance is the better example
+        elif why:
+            sbad.append((op, o, why))
+    dmodel = None
+    if derived:
+        dops_path = sc.path('derived.ops')
+        with open(dops_path, 'w') as f:
+            f.write('\n'.join(e for _, e, _ in derived) + '\n')
+        dmodel = run_model(dops_path, sc, 'derived')
+    sdiffs = [(op, e, im, dmodel[j]) for j, (op, e, im) in enumerate(derived) if dmodel is not None and dmodel[j] != im]
+    if not sbad:
+        missing = [op for op, o in zip(sops, sobs) if o is None]
+        if missing or sstat['steps'] < 12 or sstat['widened'] < 1 or len(derived) < 30:
+            raise C.Infra(f'call-site lane ran too little: missing={missing[:3]} stats={sstat} derived={len(derived)}')
+
+    # ---- 1. the property on the implementation
+    if f5_example:
+        op, o, why = f5_example
+        out.violation(f'{op}: {why}', {'kind': 'impl-oracle', 'ops': [op], 'observed': o, 'why': why, 'occurrences_this_run': n_f5,
+                                       'how': 'python3 check.py C15 --replay <this file>'}, key=F5_KEY)
+    real_bad = [b for b in bad if b]
+    for op, o, why in real_bad[:3]:
+        out.violation(f'{op}: {why}', {'kind': 'impl-oracle', 'ops': [op], 'observed': o, 'why': why,
                                        'how': 'python3 check.py C15 --replay <this file>'})
-    # 2. correspondence
-    diffs = C.diff_streams(ops, impl, model) if model is not None else []
-    if model is None:
-        proof['failed'].append(('goomdrv', 'driver does not build: ' + derr[-500:]))
-    if not bad:
+    for op, o, why in sbad[:3]:
+        out.violation(f'{op}: {why}', {'kind': 'site-oracle', 'ops': [op], 'observed': o, 'why': why,
+                                       'how': 'python3 check.py C15 --replay <this file>'})
+    # ---- 2. correspondence
+    if model is None or (derived and dmodel is None):
+        proof['failed'].append(('goomdrv', 'driver does not build: ' + (_DRIVER.get('err') or '')[-500:]))
+        proof['ok'] = False
+    if not bad and not sbad:
         if diffs:
-            i, op, a, b = diffs[0]
+            _, op, a, b = diffs[0]
             out.violation(f'model and implementation disagree on `{op}`', {'kind': 'correspondence', 'ops': [op], 'impl': a, 'model': b,
                           'broken': 'correspondence Gen.* (regenerated) vs Go emitters / mini-ISA vs reference decoder',
-                          'n_disagreements_shown': len(diffs)}, no_failing_input=True)
+                          'n_disagreements': n_diff}, no_failing_input=True)
+        elif sdiffs:
+            op, e, a, b = sdiffs[0]
+            out.violation(f'call site `{op}`: what it left in memory is not what the emitter produces for `{e}`',
+                          {'kind': 'site-correspondence', 'ops': [op], 'derived': e, 'impl': a, 'model': b,
+                           'broken': 'argument wiring of the call site (from/to/ctx handed to the emitter) vs the placement observed in memory',
+                           'n_disagreements': len(sdiffs)}, no_failing_input=True)
         elif not proof['ok']:
             out.violation('proof obligations of Props/C15.lean no longer check and no failing input was found in the search',
-                          {'kind': 'proof', 'broken': proof['failed'], 'searched': len(ops), 'output': proof.get('output', '')[-3000:]},
+                          {'kind': 'proof', 'broken': proof['failed'], 'searched': n_ops + len(sops), 'output': proof.get('output', '')[-3000:]},
                           no_failing_input=True)
-    nontrivial = len({(op.split()[1], impl[i]) for i, op in enumerate(ops) if impl[i] and 'undecodable' not in impl[i] and not op.startswith('conc ')})
-    rel = sum(1 for i, op in enumerate(ops) if op.split()[1] == 'amd64.origin' and impl[i] and len(dict(p.split('=', 1) for p in impl[i].split() if '=' in p).get('bytes', '')) == 10)
-    nor = sum(1 for op in ops if op.split()[1] == 'amd64.origin')
     out.coverage = {
         'obligations': proof['obligations'], 'discharged': proof['discharged'],
         'checker_cmd': ' ; '.join(proof['cmds']),
         'trusted_base': ['Lean 4.33 kernel', 'axioms: ' + ', '.join(sorted({a for v in proof['axioms'].values() for a in v}) or ['none']),
                          'tools/gen translator (cross-checked: generated functions run against the Go originals on every evaluation below)',
                          'mini ISA specs Model/X86Mini.lean, Model/A64Mini.lean (cross-checked against the toolchain reference decoders on every evaluation)',
+                         'call-site wiring (which from/to/ctx the call sites pass): observed on real patches in the probe binary, not proved',
                          'not modelled: that the CPU fetches the new bytes (cross-modifying code, arm64 i-cache)'],
         'theorems': proof['axioms'], 'proof_failures': proof['failed'],
-        'evaluations': len(ops), 'distinct_nontrivial': nontrivial,
-        'traces_validated_against_impl': len(ops) - len(diffs),
-        'rule': 'one evaluation = one (emitter kind, from, to); pairs: every 16-bit lane value (stride 251 in quick, all in thorough), '
-                'from-to = ±2^31±k, 0/2^63/2^64 edges, random pairs; non-trivial = decodable emitted sequence, distinct by (kind, bytes, landing)',
-        'distribution': {'pairs': len(pairs), 'kinds': len(KINDS), 'amd64.origin relative-form': rel, 'amd64.origin absolute-form': nor - rel,
+        'evaluations': n_ops + len(sops) + len(derived), 'distinct_nontrivial': distinct.count() + len({im for _, _, im in derived}),
+        'traces_validated_against_impl': n_ops - n_diff + len(derived) - len(sdiffs),
+        'rule': 'one evaluation = one (emitter kind, from, to) | one checkAlreadyPatch byte string | one call-site history (each real patch in it also yields '
+                'derived emit lines); pairs: every 16-bit lane value (stride 251 in quick, all in thorough), from-to = ±2^31±k, 0/2^63/2^64 edges, '
+                'random pairs; non-trivial = decodable emitted sequence, distinct by (kind, bytes, landing)',
+        'distribution': {'emit_ops': n_ops, 'observations_per_kind': per_kind, 'amd64.origin relative-form': rel, 'amd64.origin absolute-form': nor - rel,
+                         'known_finding_F5_inputs': n_f5, 'site_ops': len(sops), 'site_real_patches_with_trampoline': sstat['steps'],
+                         'site_refused_by_goom': sstat['refused'], 'site_relocated_head_longer_than_head': sstat['widened'],
+                         'site_placeholder_more_than_2GiB_from_origin': sstat['far'],
+                         'site_derived_emit_lines': len(derived), 'site_crash_not_reproduced': flakes,
+                         'i386_probe_native_32bit': [p['native'] for p in bins if p['tag'] == 'i386patch'][0],
                          'gen_modules_changed_this_run': changed},
-        'samples': [{'op': ops[i], 'impl': impl[i], 'model': model[i] if model else None} for i in (0, len(ops) // 3, len(ops) // 2, len(ops) - 1)],
+        'samples': samples + [{'op': op, 'impl': o} for op, o in list(zip(sops, sobs))[8:9]] +
+                   [{'op': e, 'impl': im, 'model': dmodel[j] if dmodel else None, 'from_site': op} for j, (op, e, im) in list(enumerate(derived))[-2:]],
     }
-    out.assumptions = ['page/CPU behaviour outside the model', 'arm64/386 emitters are executed as re-hosted source on amd64']
+    out.assumptions = ['page/CPU behaviour outside the model', 'arm64 emitters are executed as re-hosted source on amd64',
+                       'call sites are observed in this probe binary (amd64, placeholder and origin in one text segment)']
     return out.finish()
 
 
 def replay(body):
-    ops = body.get('ops', [])
-    impl, model, _ = execute(ops, tag='c15-replay')
-    rc = 0
-    for i, op in enumerate(ops):
-        _, k, f, t = op.split()
-        why = (None if impl[i] == 'conc ok' else str(impl[i])) if op.startswith('conc ') else oracle(k, int(f, 16), int(t, 16), impl[i])
-        print(f'{op}\n  impl : {impl[i]}\n  model: {model[i] if model else None}\n  oracle: {why or "ok"}')
-        if why or (model and impl[i] != model[i]):
-            rc = 1
-    return rc
+    sc = Scratch('replay')
+    try:
+        ops = body.get('ops', [])
+        bins = build_probes(sc)
+        rc = 0
+        eops = [o for o in ops if not o.startswith('site ')]
+        if eops:
+            impl, model = run_emit(bins, eops, sc)
+            for i, op in enumerate(eops):
+                why, key = oracle_op(op, impl[i])
+                print(f'{op}\n  impl : {impl[i]}\n  model: {model[i] if model else None}\n  oracle: {why or "ok"}' + (f'   [known finding {key}]' if key else ''))
+                if why or (model and impl[i] != model[i]):
+                    rc = 1
+        sops = [o for o in ops if o.startswith('site ')]
+        if sops:
+            sobs, flakes = run_site(bins, sops, sc)
+            for op, o in zip(sops, sobs):
+                why, key, der, _ = site_oracle(op, o)
+                print(f'{op}\n  impl : ' + str(o).replace(' | ', '\n         | ') + f'\n  oracle: {why or "ok"}' + (f'   [known finding {key}]' if key else ''))
+                if der:
+                    p = sc.path('derived.ops')
+                    open(p, 'w').write('\n'.join(e for e, _ in der) + '\n')
+                    dm = run_model(p, sc, 'derived')
+                    for j, (e, im) in enumerate(der):
+                        same = dm is not None and dm[j] == im
+                        print(f'    {e}\n      memory: {im}\n      model : {dm[j] if dm else None}{"" if same else "   <-- differ"}')
+                        if not same:
+                            rc = 1
+                if why:
+                    rc = 1
+        return rc
+    finally:
+        sc.cleanup()
